@@ -86,12 +86,18 @@ def run_property(prop, tier, seed):
             u2 = core.run_verus_unit(u.name, seed=(seed or 0) + 1)
             if u2.failures or u2.undecided:
                 unstable.append('%s: %s' % (u.name, [f.oid for f in u2.failures] + u2.undecided))
+    only_untagged = spec.get('only_untagged', False)
+
+    def _counts(f):
+        if only_untagged:
+            return f.props is None or prop in f.props
+        return f.applies_to(prop)
     for u in units:
         undecided += ['%s: %s' % (u.name, x) for x in u.undecided]
-        failures += [f for f in u.failures if f.applies_to(prop)]
+        failures += [f for f in u.failures if _counts(f)]
     for k in kani_runs:
         undecided += k.undecided
-        failures += [f for f in k.failures if f.applies_to(prop)]
+        failures += [f for f in k.failures if _counts(f)]
 
     # native witnesses (binding + boundary families); decide nothing universal, but a failing one is a real failing input
     witnesses = []
